@@ -38,6 +38,12 @@ CHECKS = {
         note="EncodeTo and the text codec are abstract callees; the link calculate_byte_len <-> encode_primitive is assumed in the proof and only "
              "bounded-checked; list-of-strings and DS/IS-as-text paths, the token-level writer and file writing are uncovered.",
     ),
+    "C05": dict(
+        technique="panic-freedom obligations of Kani (all inputs of fixed small lengths) and Verus (any input) on the leaf readers: header decoders, tag text, date/time text, PDU framing, value readers",
+        text="Complete proofs of panic-freedom for the listed leaf entry points only; the property's whole-file, JSON, pixel-data and dump entry points "
+             "are outside what these tools can process and are listed as uncovered.",
+        note="Explicitly partial: only leaf parsers are decided. Termination is not proved by Kani; Verus proves termination of the extracted functions only.",
+    ),
     "C07": dict(
         technique="Verus contracts on the extracted StatefulDecoder readers with ghost byte counters on the Read/BasicDecode shims; sanitize_length against the three strategies",
         text="Unbounded proof (every VR, every u32 length) that after each successful value/header/skip read the reported position equals the "
@@ -142,7 +148,6 @@ NOT_APPLICABLE = {
     "C33": "External binary, network, transcoding.",
     "C35": "External binaries and the `image` crate.",
     "C36": "Parsing delegates to `std::net` address parsers and `str` splitting; string reasoning unsupported in Verus, too heavy for CBMC; no arithmetic or structural kernel to put under contract.",
-    "C05": "check not built yet in this session (planned in DESIGN.md section 7); not claimed until its check runs",
     "C17": "check not built yet in this session (planned in DESIGN.md section 7); not claimed until its check runs",
     "C22": "check not built yet in this session (planned in DESIGN.md section 7); not claimed until its check runs",
     "C27": "check not built yet in this session (planned in DESIGN.md section 7); not claimed until its check runs",
